@@ -36,14 +36,12 @@ USER = [
 def make_world():
     w = World(catalogue=True)
     for ev in USER:
-        r = w.apply(ev)
-        assert r[0] == 'ok', (ev, r)
+        w.must(ev)
     for c in ('EUR', 'USD', 'JPY'):
-        w.apply(['cur', c])
-    w.apply(['dtype', 'PPM', [['Money', 1], ['Mass', -1]], None, None])
+        w.must(['cur', c])
+    w.must(['dtype', 'PPM', [['Money', 1], ['Mass', -1]], None, None])
     for c, m in (('EUR', 'kg'), ('USD', 'kg'), ('EUR', 'g')):
-        r = w.apply(['unit', 'PPM', f'{c}/{m}', ['derive', [c, m]]])
-        assert r[0] == 'ok', r
+        w.must(['unit', 'PPM', f'{c}/{m}', ['derive', [c, m]]])
     return w
 
 
